@@ -73,6 +73,13 @@ CLAIMED = {
             "plot_results._get_samplers_names on real checkpoints.",
             "Trusted: Lean kernel; dict insertion order; pickle round trip. Partial: recoverability after set_samplers is a known finding, not proved.",
             "DESIGN.md §4 C18"),
+    "C11": ("Lean 4 proof (a non-raising batch equals the fault-free batch; induction over the loop: completed run = fault-free run, raising run = fault-free prefix; counters untouched) + exhaustive fault injection at every invocation index on the real calibrator (round-robin and RL)",
+            "Proved in Lean for every fault plan: calibrate either completes and equals the fault-free run, or raises the failing component's exception with the history of the "
+            "fault-free run after the j < n completed batches; the failed batch leaves batch counter, sample counter and round-robin position untouched; the C02/C09 invariants "
+            "hold after any mix of failed and successful calls, so a later calibrate is an ordinary call. Thread clean-up is judged on the real threads (no thread left, next "
+            "calibrate works) for every fault index of every generated run; the agent-thread protocol is proved under C10.",
+            "Trusted: Lean kernel; joblib n_jobs=1 lazy in-order evaluation; threading.enumerate(). Fault = exception at component entry.",
+            "DESIGN.md §4 C11"),
 }
 NOT_YET = {}
 
